@@ -7,17 +7,20 @@ UNITS = [Unit('backmp11.do_process_event_pool', ['C04', 'C05', 'C10', 'C20', 'C1
     'size_t do_process_event_pool(fsm_t* self, size_t max_events)', 'pool_mp11.spec.h',
     xform=back_xform([], refparams=(), enums=ENUMS, drop=DROP2, rewrites=[
         dict(name='pool-accessor', pat='event_pool_t & event_pool = get_event_pool ( ) ;', rep='', min=1, max=1),
-        dict(name='CONT-begin-decl', pat='auto it = event_pool . events . begin ( ) ;', rep='pit_t it = pool_begin ( self ) ;', min=1, max=1),
-        dict(name='CONT-begin', pat='it = event_pool . events . begin ( ) ;', rep='it = pool_begin ( self ) ;', min=1, max=1),
+        dict(name='CONT-iter-type', pat='auto it =', rep='pit_t it =', min=1, max=1),
+        dict(name='CONT-begin', pat='event_pool . events . begin ( )', rep='pool_begin ( self )', min=0, max=4),
         dict(name='CONT-deref', pat='event_occurrence & event = * * it ;', rep='occ_t event = pit_deref ( self , it ) ;', min=1, max=1),
-        dict(name='member-marked', pat='event . marked_for_deletion ( )', rep='occ_marked ( event )', min=1, max=1),
-        dict(name='CONT-erase', pat='it = event_pool . events . erase ( it ) ;', rep='it = pool_erase ( self , it ) ;', min=1, max=1),
-        dict(name='OPT-decl', pat='optional < process_result > result = event . try_process ( self , event_pool . cur_seq_cnt ) ;', rep='optres_t result = occ_try_process ( event , self , self -> event_pool . cur_seq_cnt ) ;', min=1, max=1),
-        dict(name='OPT-has', pat='result . has_value ( )', rep='result . has', min=1, max=1),
-        dict(name='OPT-value', pat='* result', rep='result . v', min=2, max=2),
-        dict(name='CONT-inc', pat='it ++ ;', rep='it = pit_inc ( it ) ;', min=1, max=1),
-        dict(name='pool-member', pat='event_pool . cur_seq_cnt += 1 ;', rep='self -> event_pool . cur_seq_cnt += 1 ;', min=1, max=1),
-        dict(name='CONT-end', pat='it != event_pool . events . end ( )', rep='pit_ne_end ( self , it )', min=1, max=1)]),
-    loops={0: '__CPROVER_assigns(it, processed_events, self->event_pool.cur_seq_cnt, g_len, g_epoch, g_dispatches, g_erased, g_marked_here, g_nondef)\n'
-              '__CPROVER_loop_invariant(it.epoch == g_epoch && it.pos < g_len && g_len < SIZE_CAP && processed_events <= g_dispatches && processed_events < max_events && processed_events == g_nondef)'},
+        dict(name='member-marked', pat='event . marked_for_deletion ( )', rep='occ_marked ( event )', min=0, max=2),
+        dict(name='CONT-erase', pat='event_pool . events . erase ( it )', rep='pool_erase ( self , it )', min=0, max=2),
+        dict(name='OPT-type', pat='optional < process_result > result', rep='optres_t result', min=0, max=1),
+        dict(name='member-try_process', pat='event . try_process ( self ,', rep='occ_try_process ( event , self ,', min=0, max=2),
+        dict(name='OPT-has', pat='result . has_value ( )', rep='result . has', min=0, max=2),
+        dict(name='OPT-value', pat='* result', rep='result . v', min=0, max=3),
+        dict(name='CONT-inc', pat='it ++ ;', rep='it = pit_inc ( it ) ;', min=0, max=2),
+        dict(name='pool-member', pat='event_pool . cur_seq_cnt', rep='self -> event_pool . cur_seq_cnt', min=0, max=4),
+        dict(name='GHOST-seq0', pat='size_t processed_events = 0 ;', rep='size_t processed_events = 0 ; const uint16_t seq0 = self -> event_pool . cur_seq_cnt ;', min=1, max=1),
+        dict(name='CONT-end', pat='it != event_pool . events . end ( )', rep='pit_ne_end ( self , it )', min=0, max=1),
+        dict(name='CONT-end-eq', pat='it == event_pool . events . end ( )', rep='! pit_ne_end ( self , it )', min=0, max=1)]),
+    loops={0: '__CPROVER_assigns(g_must_erase, it, processed_events, self->event_pool.cur_seq_cnt, g_len, g_epoch, g_dispatches, g_erased, g_marked_here, g_nondef, g_nodefbit)\n'
+              '__CPROVER_loop_invariant(!g_must_erase && it.epoch == g_epoch && it.pos < g_len && g_len < SIZE_CAP && processed_events <= g_dispatches && processed_events < max_events && processed_events == g_nondef && g_nodefbit <= g_dispatches && self->event_pool.cur_seq_cnt == (uint16_t)(seq0 + g_nodefbit))'},
     cbmc_flags=['--object-bits', '12'], replay=['queue', 'defer'])]
